@@ -441,8 +441,13 @@ def run(prop, repo, chk, seed):
             add('benign', 'alpha-rename:' + rel, {rel: alpha_rename(files[rel])})
             add('benign', 'reformat:' + rel, {rel: reformat(files[rel])})
             add('benign', 'noise:' + rel, {rel: add_noise(files[rel])})
-            add('benign', 'hoist:' + rel, {rel: hoist_temps(files[rel], random.Random(seed + 1))})
-            add('benign', 'restructure:' + rel, {rel: restructure(files[rel], random.Random(seed + 2))})
+            # the gated variants use fixed random streams (1, 2): a self-test must give the same verdict on the same tree
+            add('benign', 'hoist:' + rel, {rel: hoist_temps(files[rel], random.Random(1))})
+            add('benign', 'restructure:' + rel, {rel: restructure(files[rel], random.Random(2))})
+            if seed:
+                # VERIF_SEED explores further random re-phrasings; their outcome is measured and reported, not gated
+                add('explore', 'hoist[seed %d]:%s' % (seed, rel), {rel: hoist_temps(files[rel], random.Random(seed + 1))})
+                add('explore', 'restructure[seed %d]:%s' % (seed, rel), {rel: restructure(files[rel], random.Random(seed + 2))})
         except SyntaxError:
             pass
     # generic
@@ -467,12 +472,16 @@ def run(prop, repo, chk, seed):
         viol, errs = results[n]
         if sorted(viol) != base_viol or errs:
             fails.append('benign variant changed the verdict: %s -> new %s errors %s' % (n, [v for v in viol if v not in base_viol][:3], errs[:2]))
+    explore = [n for n, k in kinds.items() if k == 'explore']
+    explore_loud = [n for n in explore if sorted(results[n][0]) != base_viol or results[n][1]]
     gen = [n for n, k in kinds.items() if k == 'generic']
     killed = [n for n in gen if [v for v in results[n][0] if v not in base_viol] or results[n][1]]
     survivors = [n for n in gen if n not in killed]
     chk.extra['selftest'] = {
         'must_kill': len(must), 'must_kill_detected': len(must) - sum(1 for f in fails if f.startswith('must')),
         'benign': len(benign), 'benign_silent': len(benign) - sum(1 for f in fails if f.startswith('benign')),
+        'explored_rephrasings': len(explore), 'explored_rephrasings_silent': len(explore) - len(explore_loud),
+        'explored_rephrasings_not_recognised': explore_loud[:20],
         'generic': len(gen), 'generic_killed': len(killed),
         'generic_survivors_sample': survivors[:25],
         'skipped': [n for n, k in kinds.items() if k == 'skipped'],
